@@ -533,7 +533,11 @@ pub fn gen(prop: &str, r: &mut Rng, _filter: &str) -> Vec<String> {
                 let k = r.below(cnt(s) as u64 + 1) as usize;
                 let op = if prop == "c11" { Op::WalkDelete(s, r.next() & 0xff) } else {
                     match r.below(if prop == "c10" { 8 } else { 14 }) {
-                        0 => Op::SetName(if r.chance(1, 5) { 0 } else { s }, k, { let mut n = gen_raw_name(r); if prop == "c10" || r.chance(1, 6) { let i = r.below(n.len() as u64) as usize; n[i] = *r.pick(&[64u8, 0xc0, 200, b'.', b'\\', 7, 127]); } n }),
+                        0 => { let sq = if r.chance(1, 5) { 0 } else { s };
+                               // one time in four: a name of exactly the current length (one letter changed), so that nothing moves
+                               let cur: Option<Vec<u8>> = if sq == 0 { Some(m.qname.clone()) } else { m.recs.iter().filter(|x| x.section == sq).nth(k).map(|x| x.name.clone()) };
+                               let same_len = match cur { Some(mut n) if prop != "c10" && n.len() > 2 && r.chance(1, 4) => { n[1] = if n[1] == b'z' { b'y' } else { b'z' }; Some(n) } _ => None };
+                               Op::SetName(sq, k, match same_len { Some(n) => n, None => { let mut n = gen_raw_name(r); if prop == "c10" || r.chance(1, 6) { let i = r.below(n.len() as u64) as usize; n[i] = *r.pick(&[64u8, 0xc0, 200, b'.', b'\\', 7, 127]); } n } }) }
                         1 => Op::Delete(if r.chance(1, 8) { 0 } else { s }, k),
                         2 => if r.chance(1, 4) { Op::InsertQuestion(format!("q{}.example", r.below(9)).into_bytes()) } else { Op::Insert(s, text_rr(r)) },
                         3 => Op::SetTtl(s, k, r.next() as u32),
